@@ -139,8 +139,16 @@ def gen_lp(g: gen.Gen, r, kind):
             a = np.array([float(r.choice([1, 2, -1, 3])) + 0.5 * j for j in range(m)])[::-1]
         arrays.append((a, a.copy()))
         return a
-    style = r.randrange(6)
-    if style == 0:
+    style = r.randrange(8)
+    if style >= 6:
+        # the constant written FIRST ("budget - cost @ x"), as the outermost node when no scalar term follows
+        k0 = r.choice([10, 2.5, -4, 100])
+        w = x if style == 6 else r.choice(vec_views(x, r))
+        obj = r.choice([lambda: k0 - arr(w.size) @ w, lambda: k0 + arr(w.size) @ w, lambda: k0 - w.sum(), lambda: k0 + w.sum(),
+                        lambda: k0 - w @ arr(w.size), lambda: gen.Constant(k0) - arr(w.size) @ w, lambda: k0 - 2 * w.sum()])()
+        if with_extra:
+            obj = obj + ex()
+    elif style == 0:
         obj = arr(n) @ x + ex(r.choice([1, -2])) + r.choice([0, 5, -1.5])
     elif style == 1:
         cv = arr(n)
@@ -177,7 +185,8 @@ def gen_lp(g: gen.Gen, r, kind):
         w = r.choice(vec_views(x, r))
         cw = arr(w.size)
         add(r.choice([lambda: cw @ w <= 7.5, lambda: cw @ w >= -9.25, lambda: (w @ cw) >= -8, lambda: cw @ w + 1 <= 9,
-                      lambda: 12 - cw @ (w + 1) <= 40, lambda: 30 - 2 * (cw @ (w - 1)) >= 0]) ())
+                      lambda: 12 - cw @ (w + 1) <= 40, lambda: 30 - 2 * (cw @ (w - 1)) >= 0,
+                      lambda: 20 - cw @ w >= -4, lambda: 9 - w.sum() >= -6, lambda: 1 + cw @ w <= 30]) ())
         if kind == "degenerate":
             add(x.sum() + ex() <= 6)          # duplicated row
             add((x[0] + ex()).eq(2))
